@@ -4,7 +4,9 @@ Everything is driven by the `random.Random` instance passed in, so a case replay
 WS = [b"", b"", b"", b" ", b"  ", b"\n", b"\t", b"\r\n", b" " * 30, b" " * 63, b" " * 64, b" " * 65, b" \n\t\r" * 33]
 
 KEYS = [b"a", b"b", b"c", b"key", b"", b"k" * 15, b"k" * 16, b"k" * 31, b"k" * 32, b"k" * 33, b"a\\nb", b"\\u0061", b"x\\\"y", b"[]{}:,",
-        b"\\ud83d\\ude00", b"caf\xc3\xa9", b"a b"]
+        b"\\ud83d\\ude00", b"caf\xc3\xa9", b"a b",
+        # long keys whose escape sits in an earlier 16/32-byte block than the closing quote
+        b"\\u0061" + b"b" * 40, b"q" * 20 + b"\\n" + b"r" * 30, b"\\\\" + b"z" * 33, b"k" * 31 + b"\\\"" + b"k" * 3, b"m" * 70]
 STRS = [b"", b"x", b"hello", b"a\\nb", b"\\\"", b"\\\\", b"\\/", b"\\b\\f\\r\\t", b"\\u0041", b"\\u00e9", b"\\u20ac", b"\\ud83d\\ude00",
         b"]}\\\"[{", b"s" * 15, b"s" * 16, b"s" * 17, b"s" * 31, b"s" * 32, b"s" * 33, b"s" * 63, b"s" * 64, b"s" * 65,
         b"caf\xc3\xa9", b"\xff\xfe", b"\x7f", b"tab\\there", b"," * 40, b"\\\\" * 20, b"x" * 31 + b"\\n", b"x" * 32 + b"\\n"]
